@@ -64,6 +64,33 @@ Definition slow_final_hi_op : cmpop := CLt.
 Definition slow_final_hi : Z := YR_MAX_STRING_MATCHES.
 Definition slow_counts_string_index : Z := (0)%Z.
 
+(* re.c _yr_re_emit: `if (A - B OP LIMIT) return ERROR_REGULAR_EXPRESSION_TOO_LARGE; x = (intN_t) (A - B)` (A, B are uint32 arena offsets: a backward distance is tested as a wrapped unsigned value) *)
+Definition re_plus_back_op : cmpop := CLt.
+Definition re_plus_back_lim : Z := (-32768)%Z.
+Definition re_star_back_op : cmpop := CLt.
+Definition re_star_back_lim : Z := (-32768)%Z.
+Definition re_star_fwd_op : cmpop := CGt.
+Definition re_star_fwd_lim : Z := (32767)%Z.
+Definition re_alt_split_op : cmpop := CGt.
+Definition re_alt_split_lim : Z := (32767)%Z.
+Definition re_alt_jump_op : cmpop := CGt.
+Definition re_alt_jump_lim : Z := (32767)%Z.
+Definition re_range_rep_back_op : cmpop := CLt.
+Definition re_range_rep_back_lim : Z := (-2147483648)%Z.
+Definition re_range_rep_fwd_op : cmpop := CGt.
+Definition re_range_rep_fwd_lim : Z := (2147483647)%Z.
+Definition re_range_split_op : cmpop := CGt.
+Definition re_range_split_lim : Z := (32767)%Z.
+
+(* sizes of the regexp instructions _yr_re_emit writes: opcode byte + arguments *)
+Definition re_sz_split : Z := (4)%Z.
+Definition re_sz_jump : Z := (3)%Z.
+Definition re_sz_literal : Z := (2)%Z.
+Definition re_sz_any : Z := (1)%Z.
+Definition re_sz_class : Z := (34)%Z.
+Definition re_sz_repeat : Z := (9)%Z.
+Definition re_sz_repeat_any : Z := (5)%Z.
+
 (* re.c _yr_emit_split: `if (emit_context->next_split_id OP RE_MAX_SPLIT_ID) return ERROR_REGULAR_EXPRESSION_TOO_COMPLEX` before next_split_id++ *)
 Definition split_id_op : cmpop := CEq.
 Definition split_id_limit : Z := RE_MAX_SPLIT_ID.
